@@ -28,7 +28,9 @@ type solverSpec struct {
 var solvers = []solverSpec{
 	{"z3-new", func(f string, t int) []string { return []string{"z3-new", "-T:" + itoa(t/1000+1), "-t:" + itoa(t), f} }},
 	{"cvc5", func(f string, t int) []string { return []string{"cvc5", "--tlimit=" + itoa(t), f} }},
-	{"z3", func(f string, t int) []string { return []string{"/usr/bin/z3", "-T:" + itoa(t/1000+1), "-t:" + itoa(t), f} }},
+	{"z3", func(f string, t int) []string {
+		return []string{"/usr/bin/z3", "-T:" + itoa(t/1000+1), "-t:" + itoa(t), f}
+	}},
 }
 
 func itoa(n int) string {
